@@ -358,7 +358,10 @@ def rand_pattern(rng, n=None):
             pairs.add(frozenset((i, j)))
         r = rng.random()
         if r < 0.08:
-            a['chain'] = [RG.rand_cons(rng)]
+            c = RG.rand_cons(rng)
+            while c[0] == 'conn' and c[3].get('suffix') == '*':     # the `*` suffix is C08's finding FM1: not generated here
+                c = RG.rand_cons(rng)
+            a['chain'] = [c]
         elif r < 0.16 and a['suffix'] in ('?', '+', '-'):
             a['chain'] = [('radical', False, (rng.choice(['=', None]), rng.choice([0, 1, 1, 2])))]
         items.append(('atom', a))
